@@ -16,7 +16,7 @@ def bs(data: bytes):
     return '(bs [' + ';'.join(str(c) for c in data) + ']%N)' if data else '[]'
 
 
-def op_term(op, nth):
+def op_term(op, nth, token=None):
     kind = op[0]
     name = op[1].encode()
     if kind == 'exists':
@@ -32,7 +32,7 @@ def op_term(op, nth):
         # the model uses the data only through its digest and its length: feed a same-length placeholder, and the digest
         return ('PUT', name, len(data), hashlib.sha256(data).hexdigest().encode(), kind), None
     if kind == 'list_files':
-        tok = None if nth == 0 else op[2][nth - 1].encode()
+        tok = None if token is None else token.encode()
         return f'OpList {"None" if tok is None else "(Some " + bs(tok) + ")"} {bs(op[1].encode())}', None
     raise ValueError(kind)
 
@@ -67,7 +67,7 @@ def case_text(item):
     extra_t = '[' + '; '.join(f'({bs(k)}, {bs(v)})' for k, v in extra) + ']'
     ymd, hms = item['stamp'][:8].encode(), item['stamp'][9:15].encode()
     common = f'{bs(host)} {bs(cfg["region"].encode())} {bs(cfg["key_id"].encode())} {bs(cfg["access_key"].encode())} {bs(url)} {bs(cfg["bucket"].encode())} {extra_t}'
-    t, _ = op_term(rec['op'], rec['nth'])
+    t, _ = op_term(rec['op'], rec['nth'], rec.get('token'))
     if isinstance(t, tuple):
         _, name, n, digest, kind = t
         return (f'Eval vm_compute in run_put {common} {bs(name)} {n}%N {bs(digest)} {"true" if kind == "upload_stream" else "false"} '
